@@ -34,14 +34,17 @@ PROP = 'C15'
 LEVEL = 'exploration'
 RULE = ('Texts: 1-3 generated well-formed blocks (urgency comments, extra key=value pairs, blank/whitespace lines, '
         'non-ASCII) or 1-3 consecutive blocks cut from the repository\'s changelog fixtures, mutated by 0-4 line '
-        'insertions (junk pool of ~40 line classes: bare/bad/one-/three-space trailers, emacs/vim mode lines and '
+        'insertions, deletions, duplications or in-place replacements (junk pool of ~40 line classes: bare/bad/one-/three-space trailers, emacs/vim mode lines and '
         'near misses, CVS keywords, #, /* */, the eight old-format headings, tabs, headings with missing ;, bad, '
         'repeated or rich key=value lists, odd spacing/versions/packages, non-ASCII; biased to the positions before '
-        'the first heading and after the last trailer), deletions and duplications; each text is run with '
-        'allow_empty_author False and True.  A text case is non-trivial when the lenient parse warned or the text '
+        'the first heading and after the last trailer); in addition every junk spelling is enumerated alone, first, '
+        'after the heading, inside the changes, last, as the heading and as the trailer of an otherwise regular block; '
+        'each text is run with allow_empty_author False and True.  A text case is non-trivial when the lenient parse warned or the text '
         'contains at least one line outside {conforming heading, blank, change, conforming trailer}.  Histories: <= 8 '
-        'editing calls on an empty or parsed changelog with well-formed argument values; non-trivial when the result '
-        'is formattable and the history has >= 2 calls.')
+        'editing calls on an empty or parsed (well-formed, fixture or mutated) changelog with well-formed argument '
+        'values, plus the enumerated matrix (irregular heading | irregular trailer | text ending inside the block) x '
+        '(each attribute assignment, add_change, new_block); non-trivial when the result is formattable and the '
+        'history has >= 2 calls.')
 ASSUMPTIONS = [
     'input texts are str (the constructor decodes bytes itself; undecodable bytes are outside "input text")',
     '"can be formatted" = str(changelog) does not raise ChangelogCreateError; such cases are skipped and counted',
@@ -80,14 +83,28 @@ _Q_COUNTERS = {
     'op:new_block': 2900, 'op:add_change': 3200, 'op:set': 2000, 'op:bset': 2400,
     'hist:from-empty': 800, 'hist:from-parsed': 2700,
 }
+_T_COUNTERS = {
+    'warn:bad-trailer': 28000, 'warn:bad-urgency-value': 18000, 'warn:empty-file': 25, 'warn:eof-inside-block': 94000,
+    'warn:invalid-key-value': 26000, 'warn:repeated-key': 26000, 'warn:unexpected-line-at-start-of-changes': 200000,
+    'warn:unexpected-line-before-first-heading': 195000, 'warn:unexpected-line-between-blocks': 195000,
+    'warn:unexpected-line-in-changes': 240000,
+    'sole:bad-trailer': 4700, 'sole:bad-urgency-value': 1500, 'sole:empty-file': 25, 'sole:eof-inside-block': 14500,
+    'sole:invalid-key-value': 2300, 'sole:repeated-key': 4500, 'sole:unexpected-line-at-start-of-changes': 80000,
+    'sole:unexpected-line-before-first-heading': 80000, 'sole:unexpected-line-between-blocks': 89000,
+    'sole:unexpected-line-in-changes': 115000,
+    'strict:accepted': 320000, 'strict:raised': 670000, 'normalform:eof-block': 74000, 'normalform:rich-heading': 515000,
+    'op:new_block': 210000, 'op:add_change': 230000, 'op:set': 150000, 'op:bset': 77000,
+    'hist:from-empty': 60000, 'hist:from-parsed': 90000,
+}
 FLOORS = {
     'quick': {'nontrivial': 9500,
               'monitors': {'M.total': 21000, 'M.strict': 21000, 'M.normalform': 20000, 'M.history': 3000,
                            'P.state-line': 300000},
               'counters': _Q_COUNTERS},
-    'thorough': {'nontrivial': 200000,
-                 'monitors': {'M.total': 400000, 'M.strict': 400000, 'M.normalform': 180000, 'M.history': 50000},
-                 'counters': {}},
+    'thorough': {'nontrivial': 470000,
+                 'monitors': {'M.total': 1000000, 'M.strict': 1000000, 'M.normalform': 970000, 'M.history': 125000,
+                              'P.state-line': 15000000},
+                 'counters': _T_COUNTERS},
 }
 
 FIXTURES = ['test_changelog', 'test_changelog_unicode', 'test_strange_changelog', 'test_changelog_full_stops',
@@ -397,7 +414,7 @@ def _parse(text, aea, strict=False):
     return c, [str(x.message) for x in w]
 
 
-def normal_form(ctx, c, aea, small, mon):
+def normal_form(ctx, c, aea, small, mon, eof_hint=False):
     """c: a live Changelog.  Returns True when the check was evaluated."""
     from debian import changelog as cl
     try:
@@ -428,9 +445,9 @@ def normal_form(ctx, c, aea, small, mon):
             attr = diff[0]
             key = 'reparse-blocks-differ/%s' % attr
             if (set(diff) <= {'author', 'date'} and all(sy[k] is None for k in diff)
-                    and getattr(x, '_no_trailer', False)):
-                # mechanism: the block was parsed from a text that ended inside it (no trailer line);
-                # author/date assigned afterwards are never written by _format
+                    and eof_hint and n == len(b1) - 1):
+                # mechanism: the last block was parsed from a text that ended inside it (lenient parse warned
+                # "Found eof where expected ..."); author/date assigned afterwards are never written by _format
                 key = 'author-date-assigned-to-eof-truncated-block-not-formatted'
             elif diff == ['urgency'] and ';' in (sx['version'] or ''):
                 key = SEMI_KEY
@@ -500,7 +517,7 @@ def check_text(ctx, text, aea):
     if normal_form(ctx, c, aea, small, 'M.normalform'):
         if len(c) and any(b.urgency_comment or b.other_pairs for b in c):
             ctx.count('normalform:rich-heading')
-        if any(getattr(b, '_no_trailer', False) for b in c):
+        if 'eof-inside-block' in sites:
             ctx.count('normalform:eof-block')
     return warned
 
@@ -547,6 +564,7 @@ def run_case(ctx, case):
     elif kind == 'hist':
         from debian import changelog as cl
         aea = bool(case.get('aea', False))
+        eof = False
         if case.get('start') is None:
             c = cl.Changelog()
             ctx.count('hist:from-empty')
@@ -558,8 +576,9 @@ def run_case(ctx, case):
                               % (e, aea, case['start']), {'kind': 'text', 'text': case['start'], 'aea': [aea]})
                 return
             ctx.count('hist:from-parsed')
+            eof = any(warn_site(x) == 'eof-inside-block' for x in _w)
         done = apply_ops(ctx, c, case['ops'])
-        if normal_form(ctx, c, aea, case, 'M.history') and done >= 2:
+        if normal_form(ctx, c, aea, case, 'M.history', eof_hint=eof) and done >= 2:
             ctx.nontrivial(case={'start': case.get('start'), 'ops': case['ops']})
     else:
         raise ValueError('unknown case kind %r' % kind)
